@@ -496,6 +496,8 @@ class ProdParser:
         defaultS = True
 
         stopIfNoMoreMatch = False
+        # S COMMENT S is a single S for productions which check S
+        lastS = False
 
         while True:
             # get from savedTokens or normal tokens
@@ -511,6 +513,14 @@ class ProdParser:
             # print debug, token, stopIfNoMoreMatch
 
             type_, val, line, col = token
+
+            if checkS:
+                if type_ == self.types.S:
+                    if lastS:
+                        continue
+                    lastS = True
+                elif type_ != self.types.COMMENT:
+                    lastS = False
 
             # default productions
             if type_ == self.types.COMMENT:
